@@ -802,3 +802,58 @@ def t_runner_setup():
              ("idiom", "listcomp", "[func(**kwargs) for func, kwargs in self._pending_setups]"): pending}
     obl, info = spec.verify(specs=specs, extra_goals=extra)
     return {"obligations": obl, "info": [info]}
+
+
+# ----------------------------------------------------------------------------- _set_fundamental_correlation: one configured pair (C12: the configured pairwise correlations reach the generator)
+QCORR = "SequentialRunner._set_fundamental_correlation"
+
+
+@task(QCORR + "[pair]", props=["C12"], functions=[QCORR], replay="fundamentals")
+def t_set_correlation_pair():
+    """body of the loop over `pairwise` for an arbitrary triple (name1, name2, corr): exactly one set_correlation call on the simulator's generator, for the ids of the two NAMED markets
+    and the configured value; ValueError (and no call) exactly when one of the two markets has volatility 0"""
+    import ast as _ast
+    fn = get_src().funcs[QCORR][0]
+    inner = [l for l in _ast.walk(fn) if isinstance(l, _ast.For) and isinstance(l.target, _ast.Tuple) and len(l.target.elts) == 3]
+    if len(inner) != 1 or [e.id for e in inner[0].target.elts if isinstance(e, _ast.Name)] != ["market1_name", "market2_name", "corr"]:
+        raise Unsupported("anchor-lost: the loop over the configured (name, name, corr) triples of " + QCORR)
+    r = sym_obj("SequentialRunner", "runner")
+    n1, n2 = V(("str",), z3.String("corr_name1")), V(("str",), z3.String("corr_name2"))
+    cv = V(("dyn",), z3.Const("corr_value", DYN))
+    env = {"self": r, "market1_name": n1, "market2_name": n2, "corr": cv}
+
+    def setc(ex, st, recv, pos, kw, node):
+        st = st.copy()
+        if set(kw) != {"market_id1", "market_id2", "corr"} or pos:
+            raise Unsupported("set_correlation is no longer called with market_id1=, market_id2=, corr=")
+        st.trace = st.trace + [("SetCorrelation", None, (recv.term, kw["market_id1"].term, kw["market_id2"].term, to_real(kw["corr"])))]
+        return [(st, NONE)]
+
+    def assume(st):
+        sim = st.read(r, "simulator"); n2m = st.read(sim, "name2market")
+        fnd_ = st.read(sim, "fundamentals"); vols = st.read(fnd_, "volatilities")
+        mid = lambda nm: st.read(V(("ref", "Market"), z3.Select(st.dict_val(n2m), nm.term)), "market_id")
+        # both names are registered markets with a generated fundamental (not index markets); the configured value is a JSON number
+        return [st.dict_has(n2m, n1), st.dict_has(n2m, n2), st.dict_has(vols, mid(n1)), st.dict_has(vols, mid(n2)), z3.Or(dyn_is_int(cv.term), dyn_is_real(cv.term))]
+    ex, st0, outs, obl = run_block(QCORR, inner[0].body, env, specs={("m", "Fundamentals", "set_correlation"): setc}, assume=assume, label=QCORR + "[pair]")
+    sim = st0.read(r, "simulator"); n2m = st0.read(sim, "name2market"); fnd = st0.read(sim, "fundamentals")
+    mk = lambda nm: V(("ref", "Market"), z3.Select(st0.dict_val(n2m), nm.term))
+    vol = lambda m: z3.Select(st0.dict_val(st0.read(fnd, "volatilities")), st0.read(m, "market_id").term)
+    zero = z3.Or(vol(mk(n1)) == 0, vol(mk(n2)) == 0)
+    n = 0
+    for s1, kind, val in outs:
+        tr = s1.trace[len(st0.trace):]
+        if kind == "raise":
+            s1.oblige(f"raises:{val[0]} only for a market without volatility, and then nothing is set", z3.And(z3.BoolVal(val[0] == "ValueError" and not tr), zero), "raises")
+            continue
+        n += 1
+        s1.oblige(f"trace:exactly one correlation is set per configured triple (got {[t[0] for t in tr]})", z3.BoolVal([t[0] for t in tr] == ["SetCorrelation"]), "trace")
+        if [t[0] for t in tr] == ["SetCorrelation"]:
+            a = tr[0][2]
+            num = z3.If(dyn_is_int(cv.term), z3.ToReal(dyn_int(cv.term)), dyn_real(cv.term))
+            s1.oblige("post:C12 the correlation is set on the simulator's generator, between the two NAMED markets, to the configured value; never for a market with volatility 0",
+                      z3.And(a[0] == fnd.term, a[1] == st0.read(mk(n1), "market_id").term, a[2] == st0.read(mk(n2), "market_id").term, a[3] == num, z3.Not(zero)), "post")
+    obl.append({"name": QCORR + "[pair]/cover:paths", "pc": [], "goal": z3.BoolVal(n >= 1), "kind": "cover"})
+    info = {"function": QCORR + " (body of the loop over the configured pairs)", "source_sha": get_src().source_hash(QCORR), "where": get_src().where(QCORR), "paths": n,
+            "assumptions": sorted(ex.used_assumptions) + ["the unpacking of each JSON triple into (name, name, corr) and the iteration over `pairwise` are not modelled: the body is proved for an arbitrary triple"]}
+    return {"obligations": obl, "info": [info]}
